@@ -93,5 +93,27 @@ for scales in ([1.0, 1.0], [1e-3, 1e3]):
       if e > 2e-3:
         add("distributed_shampoo", [scales, t, k], f"block {k} differs from the block optimized alone by relative {e:.3g}")
 
+# Distributed Shampoo, two blocked axes with DIFFERENT block counts: (2B, 3B) -> 6 blocks of (B, B)
+for scales in ([1.0] * 6, [1.0, 1e2, 1e-2, 10.0, 1.0, 1e-1]):
+  cases += 1
+  kw = dict(block_size=B, graft_type=ds.GraftingType.NONE, start_preconditioning_step=0, beta1=0.0, nesterov=False,
+            matrix_epsilon=1e-6, best_effort_shape_interpretation=False, eigh=True)
+  opt = ds.distributed_shampoo(1.0, **kw)
+  p = {"w": jnp.zeros((2 * B, 3 * B), jnp.float32)}
+  st = opt.init(p)
+  ps = [{"w": jnp.zeros((B, B), jnp.float32)} for _ in range(6)]
+  sts = [opt.init(q) for q in ps]
+  for t in range(2):
+    blocks = [(rng.randn(B, B) * s_).astype(np.float32) for s_ in scales]
+    g = np.concatenate([np.concatenate(blocks[0:3], 1), np.concatenate(blocks[3:6], 1)], 0)
+    u, st = opt.update({"w": jnp.asarray(g)}, st, p)
+    u = np.asarray(u["w"], np.float64)
+    for k in range(6):
+      uk, sts[k] = opt.update({"w": jnp.asarray(blocks[k])}, sts[k], ps[k])
+      bi, bj = divmod(k, 3)
+      e = rel(u[bi * B:(bi + 1) * B, bj * B:(bj + 1) * B], np.asarray(uk["w"], np.float64))
+      if e > 2e-3:
+        add("distributed_shampoo", ["(2B,3B)", scales, t, k], f"block {k} differs from the block optimized alone by relative {e:.3g}")
+
 print(json.dumps({"cases": cases, "violations": viol,
                   "bound": f"tier={tier}: Tearfree Shampoo 4 scale patterns (2-3 blocks) + 2 patterns on a (2B,3,2B) tensor, DS 2 scale patterns + companion leaves, 3 steps, seed {seed}"}))
